@@ -106,6 +106,39 @@ def assigns(*attrs):
   return cl
 
 
+def fit_returns(d_fn, k_fn=None, extra=()):
+  """modular use of a fit contract: assigns the fitted attributes on self's heap and returns self"""
+  def build(a, p, ex):
+    obj = a.raw('self')
+    d = d_fn(a)
+    k = k_fn(a) if k_fn else None
+    if k is None:
+      k = fresh('k', z3.IntSort())
+      p.assume(k >= 0)
+      p.assume(k <= d)
+    p.heap[obj.oid]['components_'] = p.new_loc(ArrState(fresh('L', T), Shape(2, [k, d]), 'f', frozenset()))
+    p.heap[obj.oid]['n_features_in_'] = VInt(d)
+    raw = p.heap[obj.oid].get('preprocessor')
+    p.heap[obj.oid]['preprocessor_'] = VNone() if isinstance(raw, VNone) else raw
+    for nm in ('components_', 'n_features_in_', 'preprocessor_') + tuple(extra):
+      p.events.append(('setattr', obj.oid, nm))
+    for nm in extra:
+      if nm == 'bounds_':
+        p.heap[obj.oid][nm] = p.new_loc(ArrState(fresh('bounds', T), Shape(1, [z3.IntVal(2)]), 'f', frozenset()))
+      elif nm == 'w_':
+        p.heap[obj.oid][nm] = p.new_loc(ArrState(fresh('w', T), Shape(1, [fresh('nw', z3.IntSort())]), 'f', frozenset()))
+      elif nm == 'A_':
+        p.heap[obj.oid][nm] = p.new_loc(ArrState(fresh('A', T), Shape(2, [d, d]), 'f', frozenset()))
+      elif nm == 'n_iter_':
+        p.heap[obj.oid][nm] = VInt(fresh('n_iter', z3.IntSort()))
+      elif nm == 'converged_':
+        p.heap[obj.oid][nm] = VBool(fresh('converged', z3.BoolSort()))
+      else:
+        p.heap[obj.oid].setdefault(nm, VOpaque(nm))
+    return obj
+  return Returns(build)
+
+
 FIT_RAISES = {'ValueError': May(), 'LinAlgError': May(), 'NonPSDError': May()}
 
 # ------------------------------------------------------------------------------------------------ Covariance
@@ -164,6 +197,7 @@ register(Contract(
     events={'randomness-seeded': seeded, 'bookkeeping-attributes-assigned-by-every-fit': assigns('components_', 'bounds_', 'n_iter_')},
     raises=dict(FIT_RAISES),
     modifies=ITML_MOD,
+    returns=fit_returns(lambda a: a.pairs.dim(2), lambda a: a.pairs.dim(2), ('bounds_', 'n_iter_')),
     prop=['C03', 'C11', 'C17']))
 C.unit('C03', 'itml:_BaseITML._fit')
 
@@ -194,6 +228,7 @@ register(Contract(
     events={'randomness-seeded': seeded, 'bookkeeping-attributes-assigned-by-every-fit': assigns('components_', 'w_', 'n_iter_')},
     raises=dict(FIT_RAISES),
     modifies={'components_', 'preprocessor_', 'n_features_in_', 'w_', 'n_iter_'},
+    returns=fit_returns(lambda a: a.quadruplets.dim(2), lambda a: a.quadruplets.dim(2), ('w_', 'n_iter_')),
     prop=['C03', 'C12', 'C17']))
 C.unit('C03', 'lsml:_BaseLSML._fit')
 
@@ -227,6 +262,7 @@ register(Contract(
     events={'randomness-seeded': seeded, 'bookkeeping-attributes-assigned-by-every-fit': assigns('components_', 'A_', 'n_iter_', 'converged_')},
     raises=dict(FIT_RAISES),
     modifies={'components_', 'preprocessor_', 'n_features_in_', 'A_', 'n_iter_', 'converged_'},
+    returns=fit_returns(lambda a: a.pairs.dim(2), lambda a: a.pairs.dim(2), ('A_', 'n_iter_', 'converged_')),
     prop=['C03', 'C14', 'C17']))
 C.unit('C03', 'mmc:_BaseMMC._fit')
 
@@ -249,6 +285,7 @@ register(Contract(
     events={'randomness-seeded': seeded, 'bookkeeping-attributes-assigned-by-every-fit': assigns('components_')},
     raises=dict(FIT_RAISES, RuntimeError=May()),
     modifies={'components_', 'preprocessor_', 'n_features_in_'},
+    returns=fit_returns(lambda a: a.pairs.dim(2), lambda a: a.pairs.dim(2)),
     prop=['C03', 'C13', 'C17']))
 C.unit('C03', 'sdml:_BaseSDML._fit')
 
@@ -369,6 +406,7 @@ register(Contract(
     events={'randomness-seeded': seeded, 'bookkeeping-attributes-assigned-by-every-fit': assigns('components_')},
     raises=dict(FIT_RAISES),
     modifies={'components_', 'preprocessor_', 'n_features_in_'},
+    returns=fit_returns(lambda a: a.X.dim(1), lambda a: k_of(a)),
     prop=['C03', 'C09', 'C17']))
 C.unit('C03', 'rca:RCA.fit')
 
@@ -398,6 +436,10 @@ def scml_fit_cases():
         out.append(Case('%s-%s-%s' % (bn, nn, h), {'self': est('SCML', scml_hyper(bs, ns), h), 'triplets': Arr(3, dims=['n', 3, 'd']),
                                                    'basis': NoneT(), 'n_basis': NoneT()},
                         pre=lambda a: a.self.output_iter <= a.self.max_iter))
+  # the supervised variant hands in a ready basis (lda): (n_basis, d) with its row count
+  out.append(Case('given-basis', {'self': est('SCML', scml_hyper(Str('lda'), Int(1)), 'fresh'), 'triplets': Arr(3, dims=['n', 3, 'd']),
+                                  'basis': Arr(2, dims=['nb', 'd'], owner=frozenset()), 'n_basis': Int(1)},
+                  pre=lambda a: z3.And(a.self.output_iter <= a.self.max_iter, a.n_basis == a.basis.dim(0))))
   return out
 
 
@@ -418,6 +460,7 @@ register(Contract(
             'lowrank-only-with-warning': lambda a, ev, r: z3.Implies(comp(a).dim(0) < comp(a).dim(1), z3.BoolVal(any(e[0] == 'warn' for e in ev)))},
     raises=dict(FIT_RAISES),
     modifies={'components_', 'preprocessor_', 'n_features_in_', 'n_iter_'},
+    returns=fit_returns(lambda a: a.triplets.dim(2), None, ('n_iter_',)),
     prop=['C03', 'C15', 'C17']))
 C.unit('C03', 'scml:_BaseSCML._fit')
 
